@@ -1007,12 +1007,15 @@ func asmBusyExec(c *Ctx, op string) {
 func asmBusyEngine(c *Ctx) {
 	if ls := replayLines(); ls != nil {
 		for _, op := range ls {
-			if strings.HasPrefix(op, "asmbusy ") {
+			if strings.HasPrefix(op, "asmbusy-badfiller") {
+				asmBadFiller(c, op)
+			} else if strings.HasPrefix(op, "asmbusy ") {
 				asmBusyExec(c, op)
 			}
 		}
 		return
 	}
+	asmBadFiller(c, "asmbusy-badfiller")
 	asmBusyExec(c, "asmbusy 1")
 	asmBusyExec(c, "asmbusy 2 overlay")
 	asmBusyExec(c, "asmbusy 3 upper")
@@ -1101,5 +1104,71 @@ func asm14FileOnDir(c *Ctx, op string) {
 	}
 	if st, e := os.Lstat(filepath.Join(shelf, "sub", "deeper")); e != nil || !st.IsDir() {
 		c.PropFail("asm-escape", "after one-file wares were placed over entries of a directory ware, that ware's cache shelf no longer holds sub/deeper as a directory", op)
+	}
+}
+
+// asmBadFiller: "parent creation i" can fail because of what the caller handed in as filler-directory properties (a zero
+// value, a file's metadata). Input 1 (a ware at /) is placed by then: the assembly answers an error — it does not panic —
+// and nothing stays mounted. Recipe: "asmbusy-badfiller".
+func asmBadFiller(c *Ctx, op string) {
+	c.Begin(op)
+	caseCounter++
+	base := filepath.Join(c.Work, fmt.Sprintf("bf%d", caseCounter))
+	defer rmrf(base)
+	whDir := filepath.Join(base, "wh")
+	os.MkdirAll(whDir, 0755)
+	os.Setenv("RIO_CACHE", filepath.Join(base, "cache"))
+	os.Setenv("RIO_BASE", filepath.Join(base, "riobase"))
+	ctx := context.Background()
+	pf := api.MustParseFilesetPackFilter(losslessPackStr)
+	os.MkdirAll(filepath.Join(base, "srcd", "sub"), 0755)
+	os.WriteFile(filepath.Join(base, "srcd", "sub", "inner"), []byte("dir ware"), 0644)
+	dirWare, e := tartrans.Pack(ctx, "tar", filepath.Join(base, "srcd"), pf, whAddr("ca", whDir), rio.Monitor{})
+	c.EmitR(op, "skip", "skip")
+	if e != nil {
+		return
+	}
+	wh := []api.WarehouseLocation{whAddr("ca", whDir)}
+	for k, filler := range []fs.Metadata{{}, {Type: fs.Type_File, Perms: 0644, Mtime: time.Unix(777, 0)}, {Type: fs.Type_Symlink, Perms: 0777, Linkname: "/", Mtime: time.Unix(777, 0)}} {
+		asm, err := stitch.NewAssembler(tartrans.Unpack)
+		if err != nil {
+			return
+		}
+		root := filepath.Join(base, fmt.Sprintf("root%d", k))
+		os.MkdirAll(root, 0755)
+		specs := []stitch.UnpackSpec{
+			{Path: fs.MustAbsolutePath("/"), WareID: dirWare, Filters: api.FilesetUnpackFilter_Lossless, Warehouses: wh},
+			{Path: fs.MustAbsolutePath("/mk/dir"), WareID: dirWare, Filters: api.FilesetUnpackFilter_Lossless, Warehouses: wh},
+		}
+		var cleanup func() error
+		var rerr error
+		pan := ""
+		func() {
+			defer func() {
+				if r := recover(); r != nil {
+					pan = fmt.Sprint(r)
+				}
+			}()
+			cleanup, rerr = asm.Run(ctx, osfs.New(fs.MustAbsolutePath(root)), specs, filler)
+		}()
+		left := mountsUnder(root)
+		c.H(fmt.Sprintf("badfiller:%d:panic=%v:err=%v:left=%d", k, pan != "", rerr != nil, len(left)))
+		switch {
+		case pan != "" && len(left) > 0:
+			c.PropFail("no-rollback", fmt.Sprintf("creating the parent directories of input 2 panicked (%s) with filler properties of type %q; the placement of input 1 was not rolled back: %v stays mounted and the caller has neither an error nor a teardown function", pan, string(filler.Type), left), op)
+		case pan != "":
+			c.PropFail("asm-panic", "creating the parent directories of an input panicked: "+pan, op)
+		case rerr != nil && len(left) > 0:
+			c.PropFail("no-rollback", fmt.Sprintf("the assembly failed (%s) and left mounted: %v", catOf(rerr), left), op)
+		case rerr == nil:
+			// accepted: then the filler is a directory after all
+			if st, e := os.Lstat(filepath.Join(root, "mk")); e != nil || !st.IsDir() {
+				c.PropFail("no-rollback", "an assembly given non-directory filler properties reports success, and /mk is no directory", op)
+			}
+		}
+		if cleanup != nil {
+			cleanup()
+		}
+		unmountAllUnder(root)
 	}
 }
